@@ -194,6 +194,7 @@ int main(void)
         }
         else printf("? %s", line);
         flush();
+        printf(".\n");       /* end-of-command marker: one block of output per script line */
         fflush(stdout);
     }
     teardown();
